@@ -147,6 +147,9 @@ func (fr *frame) execInstr(st *state, in ssa.Instruction) {
 				if fk, ok := fc.fieldInvOf(l.key); ok && len(l.path) == 0 && fr.sweepOn() {
 					fr.oblige(st, "fieldinv", fk, v.Pos(), nonNilTerm(val, l.sort), "field "+fk+" must never be nil")
 				}
+				if fc.e.arrInvKeys[l.key] && len(l.path) == 0 && fr.sweepOn() {
+					fr.oblige(st, "arrayinv", fr.anchorText(v.Pos(), "stmt"), v.Pos(), nonNilTerm(val, l.sort), "elements of "+l.key+" must never be nil")
+				}
 				fr.storeLoc(st, l, val)
 			}
 			return
@@ -289,6 +292,9 @@ func (fr *frame) execInstr(st *state, in ssa.Instruction) {
 		if fr.sweepOn() {
 			fr.oblige(st, "make", fr.anchorText(v.Pos(), "callfull"), v.Pos(), fmt.Sprintf("(and (<= 0 %s) (<= %s 1099511627776))", ln, ln), "makeslice: len out of range")
 		}
+		if fc.e.arrInvKeys[u.arrKey(stt.Elem())] && fr.sweepOn() {
+			fr.oblige(st, "arrayinv", fr.anchorText(v.Pos(), "callfull"), v.Pos(), eq(ln, "0"), "make of a slice whose elements must never be nil creates nil elements")
+		}
 		r := fr.freshRef(st, "slice")
 		key := u.arrKey(stt.Elem())
 		fc.hset(st, key, app("store", fc.hget(st, key), r, fmt.Sprintf("((as const (Array Int %s)) %s)", es, u.zero(es))))
@@ -360,6 +366,10 @@ func (fr *frame) execUnOp(st *state, v *ssa.UnOp) {
 			fr.regs[v] = t
 			fr.typeInv(st, t, srt, v.Type(), false)
 			if _, ok := fc.fieldInvOf(l.key); ok && len(l.path) == 0 {
+				sc.assume(implies(st.reach, nonNilTerm(t, srt)))
+			}
+			if fc.e.arrInvKeys[l.key] && len(l.path) == 0 {
+				// (only inside the bounds of a slice this holds; loads are bounds-checked)
 				sc.assume(implies(st.reach, nonNilTerm(t, srt)))
 			}
 			return
